@@ -11,7 +11,7 @@ spec (JSON file): {"steps": [step, ...], "query": [[...], ...]}
        | {"op": "fit", "x": data | null, "y": data | null} est.fit(x[, y]) (x null: re-fit of a bound estimator);  data = {"seed": s, "n": n, "d": d, "scale": a, "shift": b,
                                                                                        "times": [sizes...] | null, "cols": c}
        | {"op": "set", "attr": name, "value": v}           setattr(est, attr, v)
-       | {"op": "call", "name": m}                          getattr(est, m)()  (e.g. prepare_inference after set_x)
+       | {"op": "call", "name": m, "x": data | absent, "kwargs": {...}}   getattr(est, m)([x], **kwargs)  (prepare_inference, process_inference, ...)
 output (stdout, one JSON line): {"ok": true, "obs": {name: hex-encoded value}} or {"ok": false, "error": "Type: message"}
 """
 import json
@@ -99,7 +99,8 @@ def step(est, st):
         elif op == "set":
             setattr(est, st["attr"], decode(st["value"]))
         elif op == "call":
-            getattr(est, st["name"])()
+            args = [make_data(st["x"])] if st.get("x") is not None else []
+            getattr(est, st["name"])(*args, **{k: decode(v) for k, v in st.get("kwargs", {}).items()})
         else:
             raise SystemExit("unknown op %r" % (op,))
     return est
